@@ -714,4 +714,39 @@ example : PlainPre [0x62] [([0x61], [0x31])] ∧ keyScans [0x62] ∧ valScans [0
     exact ⟨keyScans_plain _ (by decide), valScans_token 0x31 [] (by decide) (by decide) (by decide) (by simp), by decide⟩
   · intro ks h; simp at h; subst h; rfl
 
+theorem objDel_members (K : Bytes) (old : JsonVal) (post : List (Bytes × JsonVal)) (hK : rawKey K = K) :
+    ∀ (pre : List (Bytes × Bytes)), (∀ ks ∈ pre, rawKey ks.1 = ks.1 ∧ bytesCmp ks.1 K = .lt) →
+      objDel (pre.map mem ++ (K, old) :: post) K = pre.map mem ++ post
+  | [], _ => by simp [objDel, hK]
+  | (k, s) :: pre', h => by
+    obtain ⟨h1, h2⟩ := h (k, s) (by simp)
+    have hne : k ≠ K := fun e => by rw [e, (bytesCmp_eq_iff K K).mpr rfl] at h2; cases h2
+    have ih := objDel_members K old post hK pre' (fun x hx => h x (by simp [hx]))
+    simp [mem, objDel, h1, hne, ih]
+
+/-- **`indexed_refines_single_chunk`, REMOVE**: removing an existing member `K` (first, middle or last)
+of a flat-prefixed stored object is the structural deletion — the member's text and exactly one adjacent
+comma go.  Same hypotheses as for SET / REPLACE / LOOKUP. -/
+theorem indexed_refines_remove (pre : List (Bytes × Bytes)) (K sK : Bytes) (post : List (Bytes × JsonVal))
+    (v : Bytes) (hpre : PlainPre K pre) (hK : keyScans K) (hKraw : rawKey K = K) (hs : valScans sK)
+    (hne : K ≠ [] ∧ K ≠ [0x2a] ∧ K ≠ [0x2a, 0x2a]) :
+    let d := JsonVal.obj (membersFrom pre K sK post)
+    indexedOp .remove [.key K] (serialize d) v =
+      (match refOp .remove [.key K] d nullLit with | .ok (r, ch) => .ok (serialize r, ch) | .error e => .error (.ref e)) := by
+  intro d
+  obtain ⟨hflat, hraw⟩ := hpre
+  have hboth : ∀ ks ∈ pre, rawKey ks.1 = ks.1 ∧ bytesCmp ks.1 K = .lt := fun ks h => ⟨hraw ks h, (hflat ks h).2.2⟩
+  have hloc : legsToLoc [.key K] rootLoc = .loc (keyLoc .startOfValue K) := by
+    simp [legsToLoc, hne.1, hne.2.1, hne.2.2, keyLoc, rootLoc, Loc.push]
+  have hget : objGet (membersFrom pre K sK post) K = some (.lit sK) := objGet_members K _ post hKraw pre hboth
+  have hdel : objDel (membersFrom pre K sK post) K = pre.map mem ++ post := objDel_members K _ post hKraw pre hboth
+  have href : refOp .remove [.key K] d nullLit = .ok (.obj (pre.map mem ++ post), true) := by
+    simp [refOp, walk, d, hget, hdel]
+  have hrem := iRemove_flat pre K sK post hflat hK hs
+  simp only [indexedOp, hloc, href]
+  simpa [d] using hrem
+
+example : indexedOp .remove [.key [0x62]] (serialize (.obj [([0x61], .lit [0x31]), ([0x62], .lit [0x32]), ([0x63], .lit [0x33])])) [] =
+    .ok (serialize (.obj [([0x61], .lit [0x31]), ([0x63], .lit [0x33])]), true) := by rfl
+
 end DoltVerif.C17
